@@ -770,3 +770,8 @@ def requery_optic(c):
         for q, ua, ub in zip(('x', 'y', 'z', 'L', 'M', 'N', 'opd', 'intensity'), out[0], out[1]):
             c.ensure('C02.requery.trace_after_edits_equals_trace_of_a_lens_built_with_the_edited_prescription',
                      ua.shape == ub.shape and bool(_n.allclose(ua, ub, rtol=0, atol=1e-12, equal_nan=True)), note='%s %s' % (kind, q))
+
+
+# concrete inputs found by the defect-hunting sub-agents (bounded replay, see contracts/hunt.py)
+from . import hunt as _hunt  # noqa: E402
+_hunt.register('C02')
